@@ -737,7 +737,9 @@ theorem rc_writeF_utf8 (S : Schema) (n : Nat) {fs : List FieldDesc} {f : FieldDe
       | scalar k => trivial
       | message mi =>
         cases v <;> simp only [FWutf8] <;> try exact (he ▸ rc_utf8Elem_of_OK (rc_utf8OK_emptyMsg S n mi))
-        exact hv
+        rename_i y
+        cases y <;> simp only [FWutf8] <;>
+          first | exact hv | exact (he ▸ rc_utf8Elem_of_OK (rc_utf8OK_emptyMsg S n mi))
   case lset i a =>
     unfold Reflect.lsetF
     cases hsh : f.shape <;> try trivial
